@@ -518,6 +518,9 @@ def r17_1(rep):
                     continue
                 if g[1] == "letelse" and b.canon(g[2].get("init", {})) == optc:
                     continue
+                if g[1] == "cond" and "BindgenOptions::input_header_contents" in b.canon(g[2], 10) and \
+                        (g[0] == b.canon(g[2], 10).lstrip("(").startswith("!")):
+                    continue    # the one name that is not a file: an in-memory header (shape decided by R17.11)
                 extra.append(g)
             rep.check(not extra, "include:unconditional@" + who,
                       "every inclusion directive that names a file is recorded" if not extra else
@@ -1344,6 +1347,40 @@ def r17_7(rep):
         sites.append((b, lits_[0], reads_args and recognises, feeds))
     rep.need(sites, "code that recognises `-include` in the clang arguments")
     ok = any(reads and feeds for _, _, reads, feeds in sites)
+    # the other way to get there: the builtin filter of the traversal lets the (file-less) inclusion directives of the predefines
+    # buffer through.  Decided on the filter's result with builtins = off and is_builtin = true.
+    if not ok:
+        import itertools
+        import c08
+        for p, fb in sorted(prog.bodies.items()):
+            tail = fb.root.get("tail") if isinstance(fb.root, dict) else None
+            if tail is None or not any(c.get("callee", "").endswith("clang::Cursor::is_builtin") for c in fb.calls()):
+                continue
+            if (prog.types[fb.fact["output"]] if fb.fact.get("output") is not None else "") != "bool":
+                continue
+            f = c08._formula(fb, tail)
+            atoms = sorted(c08._atoms(f, set()))
+            fixed = {}
+            for a in atoms:
+                if "Cursor::is_builtin" in a:
+                    fixed[a] = True
+                elif a.endswith("BindgenOptions::builtins"):
+                    fixed[a] = False
+                elif "CXCursor_InclusionDirective" in a and " == " in a:
+                    fixed[a] = True
+            free = [a for a in atoms if a not in fixed]
+            if not any("CXCursor_InclusionDirective" in a for a in fixed):
+                continue
+            passes = True
+            for vals in itertools.product((False, True), repeat=len(free)):
+                env = dict(zip(free, vals))
+                env.update(fixed)
+                if not c08._ev(f, env):
+                    passes = False
+                    break
+            if passes:
+                ok = True
+                rep.note("forced includes", "inclusion directives pass `%s` whatever file they sit in" % p.split("::")[-1])
     rep.check(ok, "forced-include-is-a-dependency", "`-include` arguments found in clang_args are added to the dependency set" if ok else
               "`-include` is only recognised when the command line is WRITTEN (extra input headers) or to detect C++ (%s); an `-include` the user "
               "passes after `--` is never reported" % ", ".join(sorted({b.path.split("::")[-1] for b, _, _, _ in sites})), sites[0][0].loc(sites[0][1]))
@@ -1542,3 +1579,42 @@ def r17_10(rep):
             rep.check(ok, "spec-field-unchanged:%s" % f["f"], "`%s` is parameter `%s`" % (f["f"], pids.get(inner.get("id"))) if ok else
                       "`DepfileSpec::%s` is `%s`, not the caller's value: the depfile then names (or is written to) another path than the "
                       "one that was configured" % (f["f"], b.canon(inner, 3)[:80]), b.loc(f["e"]))
+
+
+
+@RULES.rule("R17.11", "an in-memory header (`Builder::header_contents`) is never reported as a file", floor=2)
+def r17_11(rep):
+    """`header_contents("virt.h", ..)` registers an unsaved file under `<cwd>/virt.h`.  libclang reports that name for the directive that
+    includes it (the `-include` bindgen writes for it, or an `#include "virt.h"` in a real header); handing it to `include_file` / the
+    depfile names a prerequisite that is not on disk (`make: No rule to make target`; cargo re-runs the build script for ever).
+    In the InclusionDirective arm of `Item::parse`: every report of the included name is dominated by a test against
+    `options.input_header_contents`."""
+    prog = rep.prog
+    b = rep.need(prog.fn("ir::item::Item::parse"), "ir::item::Item::parse")
+    sinks = [c for c in b.calls(lambda x: x["k"] == "MCall" and x["name"] in ("add_dep", "include_file"))]
+    rep.need(sinks, "the reports of an included file in Item::parse")
+    for c in sinks:
+        ok = False
+        why = ""
+        for pol, kind, g in b.guards(c, nested=True):
+            if kind == "cond" and "input_header_contents" in b.canon(g, 10):
+                ok = ok or not pol or "!" in b.canon(g, 3)[:3]
+            if kind == "arm" and "get_included_file" in b.canon(g[0]["scrut"], 6):
+                m, idx = g
+                for a in m["arms"][:idx]:
+                    gd = a.get("guard")
+                    if gd is not None and "input_header_contents" in b.canon(gd, 10):
+                        # the arm that takes the in-memory names away must not report them itself, and it is taken whenever the
+                        # name is one of them (whatever else its guard tests)
+                        import itertools
+                        import c08
+                        quiet = not any(x["k"] == "MCall" and x["name"] in ("add_dep", "include_file") for x in b.walk(a["body"]))
+                        f = c08._formula(b, gd)
+                        atoms = sorted(c08._atoms(f, set()))
+                        fixed = {x: True for x in atoms if "input_header_contents" in x}
+                        fixed.update({x: x.replace("'", "").lower().endswith("true") for x in atoms if x.replace("'", "").lower() in ("lit:true", "lit:false")})
+                        free = [x for x in atoms if x not in fixed]
+                        always = all(c08._ev(f, dict(zip(free, vals), **fixed)) for vals in itertools.product((False, True), repeat=len(free)))
+                        ok = ok or (quiet and always)
+        rep.check(ok, "in-memory-name-filtered:%s" % c["name"], "only reached for names that are not `header_contents` inputs" if ok else
+                  "`%s` receives whatever libclang reports, also the made-up path of an in-memory header" % c["name"], b.loc(c))
